@@ -16,9 +16,13 @@
 -/
 import Bma400.Thm.Builders
 import Bma400.Thm.Plans
+import Bma400.Thm.C01
+import Bma400.Thm.C06
+import Bma400.Thm.C07
+import Bma400.Thm.C08
 namespace Bma400
 namespace Thm
-open R Generated
+open P R Generated
 
 /-- the translated `write()` of the builder of request `q` -/
 def bldOf : Request → Regs → Regs → Except CfgErr (List W)
@@ -89,6 +93,35 @@ theorem plan_translated (sh : Regs) (op : Op) : Op.plan sh op = planT sh op := b
 example :
     (planT ((shadowDefault.set 0x20 0x10#8).set 0x56 0x10#8) (.config (.act [.threshold 9#8]))).acts.length = 3 := by
   decide
+
+/-! ## The builder properties, stated about the TRANSLATED `write()` itself
+
+`bldOf q` is what tools/gen_builders.py reads out of the source of the builder of request `q`;
+`q.target sh` is the builder's copy after its setters.  From any state in which the recorded
+configuration equals the device: -/
+
+/-- C01: an accepted request leaves exactly the requested block on the device, everything else as it was -/
+theorem C01_translated (q : Request) (sh chip : Regs) (hco : Coherent sh chip) (ws : List W)
+    (h : bldOf q sh (q.target sh) = .ok ws) :
+    ∀ x, applyWrites chip ws x = if x ∈ q.block then q.target sh x else chip x :=
+  C01_effect q sh chip hco ws (by rw [← bldOf_script]; exact h)
+
+/-- C07: every write of a parameter register happens while its interrupt is disabled on the device -/
+theorem C07_translated (q : Request) (sh chip : Regs) (hco : Coherent sh chip) (ws : List W)
+    (h : bldOf q sh (q.target sh) = .ok ws) : C07 chip ws :=
+  C07_script q sh chip hco ws (by rw [← bldOf_script]; exact h)
+
+/-- C08: minimal writes - own block at most once and only where the device differs, enables only toggled -/
+theorem C08_translated (q : Request) (sh chip : Regs) (hco : Coherent sh chip) (ws : List W)
+    (h : bldOf q sh (q.target sh) = .ok ws) : C08W q.block (q.target sh) chip ws :=
+  C08_script q sh chip hco ws (by rw [← bldOf_script]; exact h)
+
+/-- C06: the translated write() rejects exactly the requests whose ideal post-state violates the
+    ODR / interrupt invariant, with the matching error -/
+theorem C06_translated (q : Request) (sh chip : Regs) (hco : Coherent sh chip)
+    (hdef : ∀ x ∈ DS.cfgAddrs, DefAt sh x) (hinv : Inv6 chip) :
+    Verdict q chip (outcomeOf (bldOf q sh (q.target sh))) := by
+  rw [bldOf_script]; exact C06_iff q sh chip hco hdef hinv
 
 end Thm
 end Bma400
